@@ -527,7 +527,7 @@ inst!(sse2_one_rfind_len144, [props=C02 xprops=C05+C14 tier=thorough cfg=x86std 
 inst!(avx2_one_rfind_len128, [props=C02 xprops=C05+C14 tier=thorough cfg=x86std t=7200 role=avx2-rfind-long uw=rfind_raw.0:4;rfind_raw.1:5;byte_by_byte:17], 3,
     x86::find_fixed::<128, 159>(1, 1, true, 32));
 #[cfg(any(vcfg_x86std, vcfg_x86none, vcfg_x86alloc, vcfg_x86avx2, vcfg_x86rel))]
-inst!(avx2_one_rfind_len160, [props=C02 xprops=C05+C14 tier=thorough cfg=x86std t=7200 role=avx2-rfind-long uw=rfind_raw.0:4;rfind_raw.1:5;byte_by_byte:17], 3,
+inst!(avx2_one_rfind_len160, [props=C02 xprops=C05+C14 tier=manual cfg=x86std t=7200 role=avx2-rfind-long uw=rfind_raw.0:4;rfind_raw.1:5;byte_by_byte:17], 3,
     x86::find_fixed::<160, 191>(1, 1, true, 32));
 #[cfg(any(vcfg_x86std, vcfg_x86none, vcfg_x86alloc, vcfg_x86avx2, vcfg_x86rel))]
 inst!(avx2_one_rfind_len287, [props=C02 xprops=C05+C14 tier=thorough cfg=x86std t=7200 role=avx2-rfind-long uw=rfind_raw.0:4;rfind_raw.1:5;byte_by_byte:17], 3,
@@ -545,7 +545,7 @@ inst!(avx2_two_find_70, [props=C01 xprops=C05+C14 tier=thorough cfg=x86std t=540
 inst!(sse2_two_find_len80, [props=C01 xprops=C05+C14 tier=thorough cfg=x86std t=5400 role=sse2-find-long uw=find_raw.0:4;find_raw.1:5;byte_by_byte:17], 3,
     x86::find_fixed::<80, 95>(0, 2, false, 16));
 #[cfg(any(vcfg_x86std, vcfg_x86none, vcfg_x86alloc, vcfg_x86avx2, vcfg_x86rel))]
-inst!(sse2_two_find_len144, [props=C01 xprops=C05+C14 tier=thorough cfg=x86std t=5400 role=sse2-find-long uw=find_raw.0:4;find_raw.1:5;byte_by_byte:17], 3,
+inst!(sse2_two_find_len144, [props=C01 xprops=C05+C14 tier=thorough cfg=x86std t=5400 role=sse2-find-long uw=find_raw.0:7;find_raw.1:5;byte_by_byte:17], 3,
     x86::find_fixed::<144, 159>(0, 2, false, 16));
 #[cfg(any(vcfg_x86std, vcfg_x86none, vcfg_x86alloc, vcfg_x86avx2, vcfg_x86rel))]
 inst!(sse2_two_rfind, [props=C02 xprops=C05+C14 tier=thorough cfg=x86std t=1500 role=sse2-rfind uw=rfind_raw.0:2;rfind_raw.1:4;byte_by_byte:17], 3,
@@ -560,7 +560,7 @@ inst!(avx2_two_rfind_70, [props=C02 xprops=C05+C14 tier=thorough cfg=x86std t=54
 inst!(sse2_two_rfind_len80, [props=C02 xprops=C05+C14 tier=thorough cfg=x86std t=5400 role=sse2-rfind-long uw=rfind_raw.0:4;rfind_raw.1:5;byte_by_byte:17], 3,
     x86::find_fixed::<80, 95>(0, 2, true, 16));
 #[cfg(any(vcfg_x86std, vcfg_x86none, vcfg_x86alloc, vcfg_x86avx2, vcfg_x86rel))]
-inst!(sse2_two_rfind_len144, [props=C02 xprops=C05+C14 tier=thorough cfg=x86std t=5400 role=sse2-rfind-long uw=rfind_raw.0:4;rfind_raw.1:5;byte_by_byte:17], 3,
+inst!(sse2_two_rfind_len144, [props=C02 xprops=C05+C14 tier=thorough cfg=x86std t=5400 role=sse2-rfind-long uw=rfind_raw.0:7;rfind_raw.1:5;byte_by_byte:17], 3,
     x86::find_fixed::<144, 159>(0, 2, true, 16));
 #[cfg(any(vcfg_x86std, vcfg_x86none, vcfg_x86alloc, vcfg_x86avx2, vcfg_x86rel))]
 inst!(sse2_three_find, [props=C01 xprops=C05+C14 tier=quick cfg=x86std t=1500 role=sse2-find uw=find_raw.0:2;find_raw.1:4;byte_by_byte:17], 3,
@@ -575,7 +575,7 @@ inst!(avx2_three_find_70, [props=C01 xprops=C05+C14 tier=thorough cfg=x86std t=5
 inst!(sse2_three_find_len80, [props=C01 xprops=C05+C14 tier=thorough cfg=x86std t=5400 role=sse2-find-long uw=find_raw.0:4;find_raw.1:5;byte_by_byte:17], 3,
     x86::find_fixed::<80, 95>(0, 3, false, 16));
 #[cfg(any(vcfg_x86std, vcfg_x86none, vcfg_x86alloc, vcfg_x86avx2, vcfg_x86rel))]
-inst!(sse2_three_find_len144, [props=C01 xprops=C05+C14 tier=thorough cfg=x86std t=5400 role=sse2-find-long uw=find_raw.0:4;find_raw.1:5;byte_by_byte:17], 3,
+inst!(sse2_three_find_len144, [props=C01 xprops=C05+C14 tier=thorough cfg=x86std t=5400 role=sse2-find-long uw=find_raw.0:7;find_raw.1:5;byte_by_byte:17], 3,
     x86::find_fixed::<144, 159>(0, 3, false, 16));
 #[cfg(any(vcfg_x86std, vcfg_x86none, vcfg_x86alloc, vcfg_x86avx2, vcfg_x86rel))]
 inst!(sse2_three_rfind, [props=C02 xprops=C05+C14 tier=quick cfg=x86std t=1500 role=sse2-rfind uw=rfind_raw.0:2;rfind_raw.1:4;byte_by_byte:17], 3,
@@ -590,7 +590,7 @@ inst!(avx2_three_rfind_70, [props=C02 xprops=C05+C14 tier=thorough cfg=x86std t=
 inst!(sse2_three_rfind_len80, [props=C02 xprops=C05+C14 tier=thorough cfg=x86std t=5400 role=sse2-rfind-long uw=rfind_raw.0:4;rfind_raw.1:5;byte_by_byte:17], 3,
     x86::find_fixed::<80, 95>(0, 3, true, 16));
 #[cfg(any(vcfg_x86std, vcfg_x86none, vcfg_x86alloc, vcfg_x86avx2, vcfg_x86rel))]
-inst!(sse2_three_rfind_len144, [props=C02 xprops=C05+C14 tier=thorough cfg=x86std t=5400 role=sse2-rfind-long uw=rfind_raw.0:4;rfind_raw.1:5;byte_by_byte:17], 3,
+inst!(sse2_three_rfind_len144, [props=C02 xprops=C05+C14 tier=thorough cfg=x86std t=5400 role=sse2-rfind-long uw=rfind_raw.0:7;rfind_raw.1:5;byte_by_byte:17], 3,
     x86::find_fixed::<144, 159>(0, 3, true, 16));
 #[cfg(any(vcfg_x86std, vcfg_x86none, vcfg_x86alloc, vcfg_x86avx2, vcfg_x86rel))]
 inst!(sse2_one_raw, [props=C01+C14 xprops=C05 tier=quick cfg=x86std t=1800 role=sse2-raw uw=find_raw.0:2;find_raw.1:4;byte_by_byte:17], 3,
@@ -623,10 +623,10 @@ inst!(sse2_one_count, [props=C07+C05 xprops=C14 tier=quick cfg=x86std t=1800 rol
 inst!(avx2_one_count_28_36, [props=C07 xprops=C05+C14 tier=thorough cfg=x86std t=1800 role=avx2-count uw=count_raw.0:2;count_raw.1:3;byte_by_byte:33;oracle::count:38], 3,
     x86::count::<67>(1, 28, 36, 32));
 #[cfg(any(vcfg_x86std, vcfg_x86none, vcfg_x86alloc, vcfg_x86avx2, vcfg_x86rel))]
-inst!(sse2_one_count_len80, [props=C07 xprops=C05+C14 tier=thorough cfg=x86std t=5400 role=sse2-count-long uw=count_raw.0:3;count_raw.1:5;byte_by_byte:17;oracle::count:82], 3,
+inst!(sse2_one_count_len80, [props=C07 xprops=C05+C14 tier=manual cfg=x86std t=5400 role=sse2-count-long uw=count_raw.0:3;count_raw.1:5;byte_by_byte:17;oracle::count:82], 3,
     x86::count_fixed::<80, 95>(0, 16));
 #[cfg(any(vcfg_x86std, vcfg_x86none, vcfg_x86alloc, vcfg_x86avx2, vcfg_x86rel))]
-inst!(avx2_one_count_len160, [props=C07 xprops=C05+C14 tier=thorough cfg=x86std t=7200 role=avx2-count-long uw=count_raw.0:3;count_raw.1:5;byte_by_byte:33;oracle::count:162], 3,
+inst!(avx2_one_count_len160, [props=C07 xprops=C05+C14 tier=manual cfg=x86std t=7200 role=avx2-count-long uw=count_raw.0:3;count_raw.1:5;byte_by_byte:33;oracle::count:162], 3,
     x86::count_fixed::<160, 191>(1, 32));
 
 // 2 lanes at long lengths: LOOP_SIZE is 8 bytes, so 80 bytes are ten unrolled
